@@ -7,9 +7,12 @@ import (
 	"fmt"
 	"os"
 	"runtime"
+	"runtime/pprof"
 	"strconv"
 	"strings"
 	"time"
+
+	"gosym/interp"
 )
 
 func main() {
@@ -59,8 +62,15 @@ func cmdRun(args []string) {
 	budget := fs.Int64("budget", 5_000_000, "instruction budget per path")
 	verbose := fs.Bool("v", false, "print samples")
 	gen := fs.Bool("gen", false, "generate vt bindings first")
+	inputsStr := fs.String("inputs", "", "run once with these input values (comma separated) and print the result")
+	itrace := fs.Bool("itrace", false, "with --inputs: print every instruction")
 	fs.Parse(args)
 
+	if p := os.Getenv("GOSYM_CPUPROF"); p != "" {
+		f, _ := os.Create(p)
+		pprof.StartCPUProfile(f)
+		defer pprof.StopCPUProfile()
+	}
 	scratch, err := os.MkdirTemp("", "gosym-")
 	if err != nil {
 		panic(err)
@@ -80,9 +90,24 @@ func cmdRun(args []string) {
 		os.Exit(2)
 	}
 	fmt.Fprintf(os.Stderr, "loaded %s in %s\n", *module, l.LoadTime.Round(time.Millisecond))
+	if *inputsStr != "" {
+		var in []uint64
+		for _, x := range parseInts(*inputsStr) {
+			in = append(in, uint64(x))
+		}
+		f := l.Prog.Lookup(l.ModulePath+"/"+*pkg, *fn)
+		r := l.Prog.Run(f, parseInts(*argstr), interp.RunConfig{Inputs: in, Budget: *budget, Trace: *itrace})
+		fmt.Printf("outcome=%s msg=%s site=%s tried=%v steps=%d\n%s\n", r.Outcome, r.Msg, r.PanicSite, r.TriedSites, r.Steps, r.Stack)
+		for k, br := range r.Trace {
+			fmt.Printf("  [%d] %v kind=%d %s  @%s\n", k, br.Taken, br.Kind, br.Cond, br.Site)
+		}
+		return
+	}
 	job := &Job{Loaded: l, Pkg: l.ModulePath + "/" + *pkg, Func: *fn, Args: parseInts(*argstr), Budget: *budget, MaxPaths: *maxPaths}
 	res := explore(job, *workers, *solver)
 	printJobResult(res, *verbose)
+	pprof.StopCPUProfile()
+	os.RemoveAll(scratch)
 	if len(res.EngineErrors) > 0 {
 		os.Exit(2)
 	}
@@ -95,6 +120,7 @@ func printJobResult(res *JobResult, verbose bool) {
 	fmt.Printf("%s: paths=%d outcomes=%v queries=%d (sat %d unsat %d unknown %d err %d) solver=%.1fs steps=%d decisions=%d wall=%.1fs exhausted=%v %s\n",
 		res.Job.Name(), res.Paths, res.ByOutcome, res.Queries, res.Sat, res.Unsat, res.Unknown, res.SolverErrors,
 		res.SolverTime.Seconds(), res.Steps, res.Decisions, res.Wall.Seconds(), res.Exhausted, res.Capped)
+	fmt.Printf("  query cache: hits=%d misses=%d trivially-unsat=%d\n", cacheHits, cacheMisses, trivialUnsat)
 	if len(res.Covers) > 0 {
 		fmt.Printf("  covers: %v\n", res.Covers)
 	}
